@@ -545,12 +545,19 @@ def replay(prop, args, rep):
     hs = spec.get('hashseed') or 0
     pool = common.ZygotePool(hashseeds=[hs], width=2)
     r = pool.run([job_of(spec)])[0]
-    census = {'ranks': [tuple(x) for x in obj['census_ranks']]} if obj.get('census_ranks') is not None else None
-    ok = same_failure(prop, spec, r, obj['class'], census=census, key=obj.get('key'))
-    if obj['class'] == 'restart-differs' and census is not None:
+    if obj['class'] == 'restart-differs':
+        # the undisturbed run is re-executed on the tree under test (not taken from the file): the oracle is
+        # "killed + restarted == undisturbed" on ONE tree
+        plain = copy.deepcopy(spec)
+        plain.pop('phases', None)
+        rc = pool.run([job_of(plain)])[0]
+        pc = phase_values(rc)[0]['proc'].get('value', {})
         phs = phase_values(r)
+        p0 = phs[0]['proc'].get('value', {})
         p1 = phs[1]['proc'].get('value', {}) if len(phs) > 1 else {}
-        ok = [tuple(x) for x in (p1.get('ranks') or [])] != census['ranks']
+        ok = p0.get('status') == 'crashed' and p1.get('ranks') != pc.get('ranks')
+    else:
+        ok = same_failure(prop, spec, r, obj['class'], key=obj.get('key'))
     pool.close()
     if ok:
         print(f"REPRODUCED class={obj['class']}")
